@@ -41,7 +41,9 @@ SOURCE_OBLIGATIONS = [
     "JanetModel.Props.C06.fifo_per_channel",
     "JanetModel.Props.C06.no_lost_wakeup",
     "JanetModel.Props.C06.terminates_when_matchable",
+    "JanetModel.Props.C06.suspends_registered_exactly",
     "JanetModel.Props.C06.noSelfMatch_needed",
+    "JanetModel.Props.C06.current_good",
     "JanetModel.Props.C06.no_lost_wakeup_partial",
     "JanetModel.Props.C06.current_source_checks",
 ]
